@@ -154,12 +154,16 @@ func gv3(w *World, r *Report) {
 		r.Check(ok, "Gv-3", "execProposing:proposal-from-payload", "the proposal is keyed by the tx hash and carries the payload's heights/options, the validators' total power and the voter snapshot", "the stored proposal is not built from the tx hash, the payload and the validator snapshot", fnSite(w, ep))
 		// recorded
 		rec := false
-		for _, cl := range CallsIn(ep) {
-			arms := w.ledgerArms(cl)
-			if len(arms) == 2 && np != nil && sameValue(cl.Common().Args[0], extractOf(callValue(np), 0)) {
-				rec = true
+		recWhy := ""
+		if np != nil {
+			if pv := extractOf(callValue(np), 0); pv != nil {
+				// on every success path after its construction the proposal is handed to an
+				// overlay setter (directly, through the exec-selected method value, or in a helper)
+				res := w.mustSink(ep, pv, np, overlayMarkSpec(w), 0)
+				rec, recWhy = res.ok && len(res.funcParams) == 0, res.why
 			}
 		}
+		_ = recWhy
 		r.Check(rec, "Gv-3", "execProposing:recorded", "the new proposal is recorded in the exec-selected overlay", "the new proposal is not recorded", fnSite(w, ep))
 	}
 	ng := needFn(r, "Gv-3", w, fref{pkgProp, "", "NewGovProposal"})
@@ -184,9 +188,22 @@ func gv3(w *World, r *Report) {
 	}
 	dv := needFn(r, "Gv-3", w, fref{pkgProp, "GovProposal", "DoVote"})
 	if dv != nil {
-		vt := "recv.GovProposalHeader.Voters[p0.String()]"
-		c := w.findCall(dv, "recv.cancelVote("+vt+")")
-		d := w.findCall(dv, "recv.doVote("+vt+", p1)")
+		// the voter is the entry of the sender's address in the recorded voters,
+		// however it is looked up (directly, or through an accessor)
+		isVoter := func(v ssa.Value) bool {
+			s := w.CanonI(v)
+			return strings.HasPrefix(s, "recv.GovProposalHeader.Voters[") && strings.HasSuffix(s, "]") && strings.Contains(s, "p0")
+		}
+		var c, d ssa.CallInstruction
+		for _, cl := range CallsIn(dv) {
+			_, args := callRecvArgs(cl.Common())
+			switch {
+			case callName(cl.Common()) == "cancelVote" && len(args) == 1 && isVoter(args[0]):
+				c = cl
+			case callName(cl.Common()) == "doVote" && len(args) == 2 && isVoter(args[0]) && w.Canon(args[1]) == "p1":
+				d = cl
+			}
+		}
 		r.Check(c != nil && d != nil && instrDominates(c, d), "Gv-3", "DoVote:cancel-then-vote", "the voter's earlier vote is cancelled before the new one is counted (latest vote wins, each voter counted once)", "a re-vote does not cancel the earlier vote first (a voter could be counted twice)", fnSite(w, dv))
 	}
 	cv := needFn(r, "Gv-3", w, fref{pkgProp, "GovProposal", "cancelVote"})
@@ -234,24 +251,11 @@ func gv4(w *World, r *Report) {
 		ok, _ := w.comparatorTable(pl).matchesLexicographic([]string{"#.votes"}, []int{-1})
 		r.Check(ok, "Gv-4", "powerOrderVoteOptions:descending", "options are ordered by votes, descending", "options are not sorted by votes descending (Options[0] would not be the top option)", fnSite(w, pl))
 	}
-	ap := w.anonOf(pkgGov, "GovCtrler", "applyProposals", 1)
-	if ap == nil {
+	if af := w.applyFlow(); af.fn == nil {
 		r.Undecided("Gv-4", "applyProposals", "callback not found")
 	} else {
-		due := "(p0.GovProposalHeader.ApplyingHeight <= ^p0)"
-		del := w.findCall(ap, "recv.frozenLedger.DelFinality(p0.Key())")
-		mg := w.findCall(ap, "types.MergeGovParams(recv.GovParams, new(types.GovParams))")
-		ok := del != nil && mg != nil && w.condCanonHolds(del.Block(), due, 1) && w.condCanonHolds(mg.Block(), due, 1) && w.condCanonHolds(mg.Block(), "(p0.MajorOption != nil)", 1)
-		r.Check(ok, "Gv-4", "apply:at-applying-height", "a frozen proposal is applied only when its applying height has been reached and it has a major option", "a frozen proposal can be applied before its applying height (or without a major option)", fnSite(w, ap))
-		// the parsed document is the major option's
-		um := false
-		for _, c := range CallsIn(ap) {
-			s := w.canonCall(c.Common(), 0)
-			if strings.HasPrefix(s, "json.Unmarshal([]byte(phi(string(p0.MajorOption.Option())") && strings.HasSuffix(s, ", new(types.GovParams))") {
-				um = true
-			}
-		}
-		r.Check(um, "Gv-4", "apply:major-option-document", "the parameters applied are parsed from the winning option", "the parameters applied are not the winning option's document", fnSite(w, ap))
+		r.Check(af.dueOK, "Gv-4", "apply:at-applying-height", "a frozen proposal is applied only when its applying height has been reached and it has a major option", "a frozen proposal can be applied before its applying height (or without a major option): "+af.dueWhy, fnSite(w, af.fn))
+		r.Check(af.docOK, "Gv-4", "apply:major-option-document", "the parameters applied are parsed from the winning option", "the parameters applied are not the winning option's document: "+af.docWhy, fnSite(w, af.fn))
 	}
 	eb := needFn(r, "Gv-4", w, fref{pkgGov, "GovCtrler", "EndBlock"})
 	if eb != nil {
@@ -318,6 +322,9 @@ func gv6(w *World, r *Report) {
 					if !ok || !isOptSlice(ia.X.Type()) {
 						continue
 					}
+					if _, fresh := stripConv(ia.X).(*ssa.MakeSlice); fresh {
+						continue // filling a list that this function has just made: nothing is permuted
+					}
 					n++
 					key := "options-permuted:" + name
 					if name == "proposal.powerOrderVoteOptions.Swap" || name == "proposal.NewGovProposal" || name == "proposal.(*powerOrderVoteOptions).Swap" {
@@ -382,8 +389,16 @@ func gv5(w *World, r *Report) {
 			if !ok {
 				return ""
 			}
-			fa, ok := st.Addr.(*ssa.FieldAddr)
-			if !ok || w.Canon(fa) != "p1."+f {
+			// the field is written directly, or through a pointer handed to a helper
+			// (`keep(&new.f, old.f)`: the parameter is bound to the field's address)
+			_, viaParam := st.Addr.(*ssa.Parameter)
+			if _, isField := st.Addr.(*ssa.FieldAddr); !isField && !viaParam {
+				return ""
+			}
+			if w.Canon(st.Addr) != "p1."+f {
+				if viaParam {
+					return "SET?" // another field's helper call, or the helper seen before its parameters are bound
+				}
 				return ""
 			}
 			return "SET:" + w.Canon(w.ResolveOnPath(st.Val))
@@ -399,8 +414,10 @@ func gv5(w *World, r *Report) {
 					return
 				}
 				v := "p1." + f // untouched
-				if len(evs) > 0 {
-					v = strings.TrimPrefix(evs[len(evs)-1], "SET:")
+				for _, e := range evs {
+					if strings.HasPrefix(e, "SET:") {
+						v = strings.TrimPrefix(e, "SET:")
+					}
 				}
 				if n > 0 && v != res {
 					agree = false
@@ -443,4 +460,124 @@ func gv5(w *World, r *Report) {
 	}
 	w.codecSymmetric(r, "Gv-5", pkgCT, "GovParams", "MarshalJSON", "UnmarshalJSON", fields)
 	w.codecSymmetric(r, "Gv-5", pkgCT, "GovParams", "toProto", "fromProto", fields)
+}
+
+// applyFlowVerdict: what the callback of GovCtrler.applyProposals does with one
+// frozen proposal, evaluated over its paths (helpers expanded).
+type applyFlowVerdict struct {
+	fn                      *ssa.Function
+	dueOK, docOK, persistOK bool
+	dueWhy, docWhy, persWhy string
+}
+
+var (
+	reApDel   = mustRe(`^recv\.frozenLedger\.DelFinality\(p0\.Key\(\)\)$`)
+	reApMerge = mustRe(`^types\.MergeGovParams\(recv\.GovParams, (.*)\)$`)
+	reApUnm   = mustRe(`^json\.Unmarshal\((.*), ([^,]*)\)$`)
+	reApSet   = mustRe(`^recv\.paramsLedger\.SetFinality\((.*)\)$`)
+)
+
+func (w *World) applyFlow() *applyFlowVerdict {
+	if w.apFlowMemo != nil {
+		return w.apFlowMemo
+	}
+	v := &applyFlowVerdict{}
+	w.apFlowMemo = v
+	ap := w.anonOf(pkgGov, "GovCtrler", "applyProposals", 1)
+	if ap == nil {
+		return v
+	}
+	v.fn = ap
+	ev := func(in ssa.Instruction) string {
+		switch x := in.(type) {
+		case ssa.CallInstruction:
+			c := w.canonCall(x.Common(), 0)
+			switch {
+			case reApDel.MatchString(c):
+				return "DEL"
+			case reApMerge.MatchString(c):
+				return "MERGE\x01" + reApMerge.FindStringSubmatch(c)[1]
+			case reApUnm.MatchString(c):
+				m := reApUnm.FindStringSubmatch(c)
+				return "UNM\x01" + m[2] + "\x01" + m[1]
+			case reApSet.MatchString(c):
+				return "SET\x01" + reApSet.FindStringSubmatch(c)[1]
+			}
+		case *ssa.Store:
+			if _, isField := x.Addr.(*ssa.FieldAddr); isField && w.Canon(x.Addr) == "recv.newGovParams" {
+				return "STAGE\x01" + w.Canon(x.Val)
+			}
+		}
+		return ""
+	}
+	has := func(evs []string, pre string) []string {
+		var out []string
+		for _, e := range evs {
+			if e == pre || strings.HasPrefix(e, pre+"\x01") {
+				out = append(out, strings.TrimPrefix(strings.TrimPrefix(e, pre), "\x01"))
+			}
+		}
+		return out
+	}
+	// (1) not yet due: nothing happens; no major option: only the removal from the frozen ledger
+	v.dueOK = true
+	notDue := w.runUnder(ap, nil, ev, A("p0.GovProposalHeader.ApplyingHeight", ">", "^p0"))
+	if !notDue.complete || !notDue.allConsulted || notDue.ok == 0 {
+		v.dueOK, v.dueWhy = false, "the applying height is not compared with the block height"
+	}
+	for _, evs := range notDue.okEvents {
+		if len(evs) > 0 {
+			v.dueOK, v.dueWhy = false, "a proposal whose applying height lies ahead is processed: "+strings.Join(evs, ", ")
+		}
+	}
+	noMajor := w.runUnder(ap, nil, ev, A("p0.MajorOption", "==", "nil"))
+	if !noMajor.complete || !noMajor.allConsulted {
+		v.dueOK, v.dueWhy = false, "the major option is not tested"
+	}
+	for _, evs := range noMajor.okEvents {
+		if len(has(evs, "MERGE"))+len(has(evs, "SET"))+len(has(evs, "STAGE")) > 0 {
+			v.dueOK, v.dueWhy = false, "parameters are applied for a proposal without a major option"
+		}
+	}
+	// (2),(3) on every path that stages or records parameters: parsed from the major
+	// option's document, merged with the current ones, recorded, then staged — one object
+	all := w.runUnder(ap, nil, ev)
+	v.docOK, v.persistOK = all.complete, all.complete
+	nApplied := 0
+	for _, evs := range all.okEvents {
+		set, stage, merge, unm := has(evs, "SET"), has(evs, "STAGE"), has(evs, "MERGE"), has(evs, "UNM")
+		if len(set)+len(stage)+len(merge) == 0 {
+			continue
+		}
+		nApplied++
+		if len(has(evs, "DEL")) != 1 {
+			v.dueOK, v.dueWhy = false, "an applied proposal is not removed from the frozen ledger exactly once"
+		}
+		if len(set) != 1 || len(stage) != 1 || len(merge) != 1 || set[0] != stage[0] || merge[0] != set[0] {
+			v.persistOK, v.persWhy = false, fmt.Sprintf("recorded %v, staged %v, merged %v", set, stage, merge)
+			continue
+		}
+		pos := map[string]int{}
+		for i, e := range evs {
+			pos[strings.SplitN(e, "\x01", 2)[0]] = i
+		}
+		if !(pos["MERGE"] < pos["SET"] && pos["SET"] < pos["STAGE"]) {
+			v.persistOK, v.persWhy = false, "the parameters are not merged, then recorded, then staged in that order"
+		}
+		okDoc := false
+		for _, u := range unm {
+			parts := strings.SplitN(u, "\x01", 2)
+			if len(parts) == 2 && parts[0] == set[0] && strings.Contains(parts[1], "p0.MajorOption.Option()") && pos["UNM"] < pos["MERGE"] {
+				okDoc = true
+			}
+		}
+		if !okDoc {
+			v.docOK, v.docWhy = false, fmt.Sprintf("decoded documents: %v", unm)
+		}
+	}
+	if nApplied == 0 {
+		v.docOK, v.persistOK = false, false
+		v.docWhy, v.persWhy = "no path applies parameters", "no path applies parameters"
+	}
+	return v
 }
